@@ -71,6 +71,27 @@ func runC03(c *Ctx) {
 		c.Obs("bitmap_runs_over_64", 1)
 	}
 
+	if typeHasMap(te.Type) {
+		// value-level re-assembly with multi-entry maps (stream order is path dependent there,
+		// the reassembled value is not)
+		mrows := genRows(r, te, 24, genOpts{NoHuge: true})
+		c.guard("c03.panic", map[string]any{"path": "Reconstruct", "type": te.Name}, func() {
+			for i := 0; i < mrows.Len(); i++ {
+				row := schema.Deconstruct(nil, mrows.Index(i).Interface())
+				out := reflect.New(te.Type)
+				if err := schema.Reconstruct(out.Interface(), row); err != nil {
+					c.Fail("c03.path_error", map[string]any{"path": "Reconstruct", "type": te.Name}, "Reconstruct: %v", err)
+					return
+				}
+				if ok, diff := eqNorm(mrows.Index(i), out.Elem(), ""); !ok {
+					c.Fail("c03.reconstruct_mismatch", map[string]any{"type": te.Name}, "Reconstruct(Deconstruct(row)) != row (multi-entry maps): %s", diff)
+					return
+				}
+			}
+			c.Obs("reconstruct_checks_multimap", mrows.Len())
+		})
+	}
+
 	want, err := model.Shred(schema, rows)
 	if err != nil {
 		c.Fail("harness.model", nil, "%v", err)
